@@ -88,8 +88,17 @@ def _print_Piecewise(
         else:
             return printer._print(cond)
 
+    # Only the conditions are simplified. The branch values are hidden behind dummy
+    # symbols meanwhile, because sympy would rewrite them as well (split exponentials,
+    # expand Abs of trigonometric functions, ...) into expressions that compute
+    # something else in floating point
+    hidden: dict[sympy.Basic, sympy.Dummy] = {}
     try:
-        simplified = sympy.simplify(expr)
+        simplified = sympy.simplify(
+            sympy.Piecewise(
+                *[(hidden.setdefault(arg.expr, sympy.Dummy()), arg.cond) for arg in expr.args]
+            )
+        ).xreplace({dummy: value for value, dummy in hidden.items()})
     except TypeError:
         # sympy may fail to simplify ("cannot determine truth value of Relational")
         simplified = expr
